@@ -319,15 +319,13 @@ structure Sw where
 
 def isJoin (m : Meta) : Bool := m.path == "join"
 
+/-- the ACTIVE switches: findings still open.  Repaired in /repo and therefore no longer consulted (a recurrence is an
+    unattributed failure = VIOLATION): C23-F1 notInPlainAnti (47485db), C23-F2 inSubquerySkipsNulls (08ac987),
+    C23-F4 nonEqFilterFlipped (1caf07a), C23-F5 inDropsNonEqCorr and C23-F6 inDropsProjectedCorr (2272b7e),
+    C23-F7 scalarCountBug (51cab70). -/
 def switches : List Sw :=
-  [ { id := "C23-F1", set := fun d => { d with notInPlainAnti := true }, applies := fun m _ => isJoin m && m.kind == "in" && m.neg },
-    { id := "C23-F2", set := fun d => { d with inSubquerySkipsNulls := true }, applies := fun m _ => !isJoin m && m.kind == "in" },
-    { id := "C23-F3", set := fun d => { d with corrScalarInSelectNull := true, corrErrorsSwallowed := true },
+  [ { id := "C23-F3", set := fun d => { d with corrScalarInSelectNull := true, corrErrorsSwallowed := true },
       applies := fun m si => !isJoin m && si.correlated && m.unq && m.narrow },
-    { id := "C23-F4", set := fun d => { d with nonEqFilterFlipped := true }, applies := fun m si => isJoin m && m.kind == "exists" && si.corr.any (fun p => p.op != .eq) },
-    { id := "C23-F5", set := fun d => { d with inDropsNonEqCorr := true }, applies := fun m si => isJoin m && m.kind == "in" && si.corr.any (fun p => p.op != .eq) },
-    { id := "C23-F6", set := fun d => { d with inDropsProjectedCorr := true }, applies := fun m si => isJoin m && m.kind == "in" && !si.corr.isEmpty },
-    { id := "C23-F7", set := fun d => { d with scalarCountBug := true }, applies := fun m si => isJoin m && m.kind == "scalar_agg" && si.correlated },
     { id := "C23-F13", set := fun d => { d with inSubqueryTypesLimited := true }, applies := fun m _ => !isJoin m && m.kind == "in" },
     { id := "C23-F12", set := fun d => { d with scalarReductionDup := true }, applies := fun m si => isJoin m && m.kind == "scalar_agg" && si.correlated },
     { id := "C23-F8", set := fun d => { d with corrErrorsSwallowed := true }, applies := fun m si => !isJoin m && si.correlated && (m.kind == "scalar_row" || m.kind == "scalar_agg" || m.kind == "exists") },
